@@ -669,6 +669,37 @@ def structured(run):
         check_mesh(run, "closed_minus_face:" + tag, np.delete(F, k, axis=0), len(V), V=V)
         if run.out_of_time(0.25):
             break
+    # closed bodies that touch without sharing a face: glued at ONE vertex (vertex-connected,
+    # every edge still has two faces, two edge-connected components) or along ONE edge (an edge
+    # with four faces).  Where "connected" means shared edges, vertex connectivity must not
+    # be used as a shortcut.
+    for trial in range(3 if run.tier == "quick" else 12):
+        (Va, Fa), (Vb, Fb) = G.tetra(rng), (G.hull_int(rng, 6) if trial % 2 else G.tetra(rng))
+        Vb = G.translate(Vb, [40, 0, 0])
+        # pinch: vertex 0 of b is identified with vertex 0 of a
+        Fb_p = Fb + len(Va)
+        Fb_p[Fb_p == len(Va)] = 0
+        Vp = np.vstack([Va, Vb])
+
+        def compact(Vx, Fx):
+            # drop the vertices the identification left unreferenced (they would count as
+            # bodies of their own in the vertex graph)
+            used = np.unique(Fx)
+            remap = -np.ones(len(Vx), dtype=np.int64)
+            remap[used] = np.arange(len(used))
+            return Vx[used], remap[Fx]
+
+        Vc, Fc = compact(Vp, np.vstack([Fa, Fb_p]))
+        check_mesh(run, "pinched_at_vertex", Fc, len(Vc), V=Vc, split_default=True)
+        check_mesh(run, "pinched_at_vertex+unreferenced", np.vstack([Fa, Fb_p]), len(Vp), V=Vp, split_default=True)
+        # hinge: an edge (two vertices) of b identified with an edge of a
+        ea, eb = Fa[0][:2], Fb[0][:2]
+        Fh = Fb + len(Va)
+        for x, y in zip(eb, ea):
+            Fh[Fh == x + len(Va)] = y
+        Vc, Fc = compact(Vp, np.vstack([Fa, Fh]))
+        check_mesh(run, "hinged_at_edge", Fc, len(Vc), V=Vc, split_default=True)
+        run.count("pinched_meshes")
     for k in (1, 2, 3, 4, 6):
         F, nv = G.fan(k)
         check_mesh(run, "fan", F, nv)
